@@ -5,6 +5,8 @@ import PorepyVerif.C16.Model
 import Mathlib.Algebra.Order.Field.Rat
 import Mathlib.Tactic.Ring
 import Mathlib.Tactic.FieldSimp
+import Mathlib.Tactic.Linarith
+import Mathlib.Tactic.NormNum
 
 namespace PorepyVerif.C16
 
@@ -179,5 +181,95 @@ theorem cellSum_linear (c : Nat) (fs : Faces) (a b k : Rat) :
   induction fs with
   | nil => simp [cellSum]
   | cons p fs ih => obtain ⟨f, g⟩ := p; simp only [cellSum] at ih ⊢; rw [ih]; ring
+
+theorem sideSum_div (ss : List Side) (k c : Rat) :
+    sideSum ss (fun s => 2 * s.m / k * c) = sumTwoM ss / k * c := by
+  unfold sumTwoM
+  have : sideSum ss (fun s => 2 * s.m / k * c) = sideSum ss (fun s => 2 * s.m) * (1 / k * c) := by
+    rw [← sideSum_mul_right]
+    exact sideSum_congr (fun s _ => by ring)
+  rw [this]; ring
+
+
+/-! ### one-cell grids with Dirichlet data on every face -/
+
+
+theorem cellSum_add (c : Nat) (fs : Faces) (φ ψ : Face → Vec → Rat) :
+    cellSum c fs (fun f g => φ f g + ψ f g) = cellSum c fs φ + cellSum c fs ψ := by
+  induction fs with
+  | nil => simp [cellSum]
+  | cons p fs ih => obtain ⟨f, g⟩ := p; simp only [cellSum, ih]; ring
+
+theorem cellSum_mul_right (c : Nat) (fs : Faces) (φ : Face → Vec → Rat) (k : Rat) :
+    cellSum c fs (fun f g => φ f g * k) = cellSum c fs φ * k := by
+  induction fs with
+  | nil => simp [cellSum]
+  | cons p fs ih => obtain ⟨f, g⟩ := p; simp only [cellSum, ih]; ring
+
+theorem DirFace0.side {f : Face} (h : DirFace0 f) : ∃ s, f.sides = [s] ∧ s.cell = 0 := by
+  obtain ⟨⟨hl, hc⟩, _⟩ := h
+  obtain ⟨s, hs⟩ := List.length_eq_one_iff.mp hl
+  exact ⟨s, hs, hc s (by rw [hs]; exact List.mem_singleton_self s)⟩
+
+theorem DirFace0.bc {f : Face} (h : DirFace0 f) (d : Dir) : f.bc d = .dir := by
+  cases d
+  · exact h.2.1
+  · exact h.2.2.1
+  · exact h.2.2.2
+
+theorem DirFace0.sgnOf_eq {f : Face} (h : DirFace0 f) : PorepyVerif.C16.sgnOf 0 f = sgnSum f.sides := by
+  obtain ⟨s, hs, hc⟩ := h.side
+  simp [PorepyVerif.C16.sgnOf, sgnSum, hs, sideSum, hc]
+
+/-- stress row of a Dirichlet face of a one-cell grid, for an arbitrary state -/
+theorem stressFlux_dirFace0 (dim3 : Bool) {f : Face} (h : DirFace0 f) (st : State) (g : Vec) (d : Dir)
+    (hd : d ∈ dirs dim3) :
+    stressFlux dim3 f st.u st.r st.p g d
+      = (-(tShear f d * sgnSum f.sides)) * (st.u 0).get d
+        + (momCx st d * f.n.x + momCy st d * f.n.y + (if dim3 then momCz st d else 0) * f.n.z)
+        + tShear f d * sgnSum f.sides * g.get d := by
+  have hb := h.bc
+  obtain ⟨s, hs, hc⟩ := h.side
+  cases dim3 <;> cases d <;>
+    simp [dirs] at hd <;>
+    simp [stressFlux, stressU, stressG, stressR3, stressR2, stressP, sideVec, hs, sideSum, sgnSum, c2fW, hb,
+      trmNd, trmBnd, notNeu, BC.isNeu, hc, cross, nvd, Vec.get, momCx, momCy, momCz] <;> ring
+
+/-- on a Dirichlet face of a one-cell grid the rotation and mass fluxes do not depend on the state -/
+theorem rotmass_dirFace0 (dim3 : Bool) {f : Face} (h : DirFace0 f) (a b : State) (g : Vec) :
+    (∀ d, rotFlux3 f a.u a.r g d = rotFlux3 f b.u b.r g d)
+    ∧ rotFlux2 f a.u a.r g = rotFlux2 f b.u b.r g
+    ∧ massFlux dim3 f a.u a.p g = massFlux dim3 f b.u b.p g := by
+  have hb := h.bc
+  obtain ⟨s, hs, hc⟩ := h.side
+  have hfd : ∀ u : VField, faceDisp f u g = g := by
+    intro u
+    apply Vec.ext' <;>
+      simp [faceDisp, sideVec, hs, sideSum, c2fW, hb, gammaB, b2fRob, BC.isNeu, BC.isRob, BC.isDir]
+  have hnr : ∀ d, neuRob f d = 0 := by intro d; simp [neuRob, hb, BC.isNeu, BC.isRob]
+  have hdn : dirNotpass f = 0 := by simp [dirNotpass, hb, BC.isDir]
+  refine ⟨?_, ?_, ?_⟩
+  · intro d
+    simp [rotFlux3, rotRot3, hfd, hnr]
+  · simp [rotFlux2, rotRot2, hfd, hnr]
+  · simp [massFlux, massP, hfd, hdn]
+
+/-- momentum balance of a one-cell all-Dirichlet grid: `K_d u_d + G_d` (the rotation and pressure columns cancel
+    over the closed cell) -/
+theorem mom_one_cell (dim3 : Bool) (fs : Faces) (h1 : OneCellDir fs) (hcl : closure 0 fs = Vec.zero)
+    (st : State) (d : Dir) (hd : d ∈ dirs dim3) :
+    cellSum 0 fs (fun f g => stressFlux dim3 f st.u st.r st.p g d)
+      = cellSum 0 fs (fun f _ => -(tShear f d * sgnSum f.sides)) * (st.u 0).get d
+        + cellSum 0 fs (fun f g => tShear f d * sgnSum f.sides * g.get d) := by
+  have hcx : (closure 0 fs).x = 0 := by rw [hcl]; rfl
+  have hcy : (closure 0 fs).y = 0 := by rw [hcl]; rfl
+  have hcz : (closure 0 fs).z = 0 := by rw [hcl]; rfl
+  rw [cellSum_congr 0 (ψ := fun f g => (-(tShear f d * sgnSum f.sides)) * (st.u 0).get d
+        + (momCx st d * f.n.x + momCy st d * f.n.y + (if dim3 then momCz st d else 0) * f.n.z)
+        + tShear f d * sgnSum f.sides * g.get d)
+      (fun p hp => stressFlux_dirFace0 dim3 (h1 p hp) st p.2 d hd)]
+  rw [cellSum_add, cellSum_add, cellSum_mul_right, cellSum_linear, hcx, hcy, hcz]
+  ring
+
 
 end PorepyVerif.C16
